@@ -745,6 +745,97 @@ func (e *Explorer) Explore(run func(prefix []int) *Execution, visit func(prefix 
 	rec(nil)
 }
 
+// ExploreParallel enumerates the same set of schedules as Explore with a pool of workers: every
+// alternative prefix found in an execution is an independent subtree and becomes a task. run and
+// visit are called concurrently (each execution has its own controller and state). Without a cap
+// the set of executions is exactly that of Explore; only the order differs.
+func (e *Explorer) ExploreParallel(workers int, run func(prefix []int) *Execution, visit func(prefix []int, ex *Execution) bool) {
+	if workers < 1 {
+		workers = 1
+	}
+	var mu sync.Mutex
+	cond := sync.NewCond(&mu)
+	queue := [][]int{nil}
+	active := 0
+	stop := false
+	var wg sync.WaitGroup
+	for w := 0; w < workers; w++ {
+		wg.Add(1)
+		go func() {
+			defer wg.Done()
+			for {
+				mu.Lock()
+				for len(queue) == 0 && active > 0 && !stop {
+					cond.Wait()
+				}
+				if stop || (len(queue) == 0 && active == 0) {
+					mu.Unlock()
+					cond.Broadcast()
+					return
+				}
+				if e.Cap > 0 && e.Executions >= e.Cap {
+					e.Capped = true
+					queue = nil
+					if active == 0 {
+						mu.Unlock()
+						cond.Broadcast()
+						return
+					}
+					mu.Unlock()
+					continue
+				}
+				// depth-first flavour: take the most recently added prefix
+				prefix := queue[len(queue)-1]
+				queue = queue[:len(queue)-1]
+				active++
+				e.Executions++
+				mu.Unlock()
+
+				ex := run(prefix)
+				choices := make([]int, len(ex.Points))
+				for i, p := range ex.Points {
+					choices[i] = p.Chosen
+				}
+				ok := visit(choices, ex)
+				var children [][]int
+				if ok {
+					used := 0
+					for i := 0; i < len(ex.Points); i++ {
+						p := ex.Points[i]
+						if i >= len(prefix) {
+							for alt := 1; alt < len(p.Enabled); alt++ {
+								cost := used
+								if p.LastRanEnabled && !altIsLastRan(p, alt) {
+									cost++
+								}
+								if cost > e.Bound {
+									continue
+								}
+								children = append(children, append(append([]int{}, choices[:i]...), alt))
+							}
+						}
+						if p.LastRanEnabled && !p.ChosenIsLastRan {
+							used++
+						}
+					}
+				}
+				mu.Lock()
+				if len(ex.Points) > e.MaxPoints {
+					e.MaxPoints = len(ex.Points)
+				}
+				if !ok {
+					stop = true
+				}
+				queue = append(queue, children...)
+				active--
+				mu.Unlock()
+				cond.Broadcast()
+			}
+		}()
+	}
+	wg.Wait()
+}
+
 // the canonical order puts all transitions of the last-ran thread first; they share the prefix
 // "<name>:" of Enabled[0]
 func altIsLastRan(p Point, alt int) bool {
